@@ -88,7 +88,8 @@ def main() -> int:
         dst = VERIF / "seeded" / a.keep
         dst.mkdir(parents=True, exist_ok=True)
         for f in ("patch.diff", "demo.py"):
-            shutil.copy(sd / f, dst / f)
+            if (sd / f).resolve() != (dst / f).resolve():
+                shutil.copy(sd / f, dst / f)
         meta = json.loads((sd / "meta.json").read_text()) if (sd / "meta.json").exists() else {}
         meta["confirmed_by_lead"] = out
         (dst / "meta.json").write_text(json.dumps(meta, indent=1))
